@@ -14,10 +14,10 @@ from __future__ import annotations
 import itertools
 
 import vlib
-from vlib import coqlist, optz, zlist, zlit
+from vlib import boollit, coqlist, optz, zlist, zlit
 
 PROPERTY = "C05"
-MODEL_TARGETS = ["Model/C05Copy.vo"]
+MODEL_TARGETS = ["Model/C05Copy.vo", "Model/C05Dyn.vo"]
 RULE = ("memref.copy between two memrefs of rank 1-4 with shared tile bounds (tile depth 1-3, bounds from "
         "{1,2,3,4,5,8}), element 1/2/4/8 bytes; layouts: TSL lattices sharing a random contiguous prefix, padded, "
         "random and repeated steps (equal steps in different dimensions), unit bounds, offsets; strided<[..], offset> "
@@ -42,7 +42,7 @@ ASSUMPTIONS = [
 ]
 
 KNOWN_CLASS = "equal_valued_stride_in_block"
-EL_BITS = [8, 16, 32, 64]
+EL_BITS = [8, 16, 32, 64, 8, 16, 32, 1, 4, 12]
 BOUNDS = [1, 2, 2, 3, 4, 4, 5, 8]
 
 
@@ -200,6 +200,102 @@ def _make_dynamic(rng, case):
                 case[k] = ("strided", st, o)
                 case.setdefault("rt", {})[k] = None
         case["dyn"] = "strided"
+
+
+def el_bytes(case):
+    return (case["bits"] + 7) // 8      # FixedBitwidthType.size
+
+
+def gen_dyn_case(rng):
+    """(case, twin): `twin` is a fully static case; `case` hides some of its information behind `?`
+    (dynamic dims, strides, offsets; dynamic outer tile bound / step of a TSL).  Run-time values = twin."""
+    bits = rng.choice(EL_BITS)
+    if rng.random() < 0.5:
+        # strided / identity layouts with dynamic dims, strides and offsets
+        while True:
+            twin = gen_case(rng)
+            if twin["src"][0] != "tsl" and twin["dst"][0] != "tsl":
+                break
+        twin["bits"] = bits
+        for k in ("src", "dst"):
+            if twin[k][0] == "strided" and rng.random() < 0.7:
+                twin[k] = ("strided", twin[k][1], rng.choice([1, 3, 16, 100]))
+        case = dict(twin)
+        rank = len(twin["shape"])
+        dyn = [i for i in range(rank) if rng.random() < 0.5]
+        case["shape"] = [None if i in dyn else x for i, x in enumerate(twin["shape"])]
+        for k in ("src", "dst"):
+            if twin[k][0] == "strided":
+                # `?` strides are treated by the lowering as equal and contiguous (largest_common_contiguous_block
+                # compares None == None): only hide strides that really are the row-major ones
+                rm, cur = [], 1
+                for x in reversed(twin["shape"]):
+                    rm.insert(0, cur)
+                    cur *= x
+                hide = list(twin[k][1]) == rm
+                st = [None if (hide and rng.random() < 0.5) else x for x in twin[k][1]]
+                off = None if rng.random() < 0.6 else twin[k][2]
+                case[k] = ("strided", st, off)
+        case["mode"] = "dyn-strided"
+        return case, twin
+    # TSL pair with a dynamic outermost tile (bound and possibly step) in one dimension
+    while True:
+        rank = rng.choice([1, 2, 2, 3])
+        depths = [rng.choice([1, 2, 2, 3]) for _ in range(rank)]
+        bounds = [[rng.choice(BOUNDS) for _ in range(d)] for d in depths]
+        if _prod(b for bs in bounds for b in bs) <= 600:
+            break
+    pos = [(d, k) for d in range(rank) for k in range(depths[d])]
+    dd = rng.randrange(rank)
+    P = (dd, 0)
+    bounds[dd][0] = rng.choice([2, 3, 4, 5])           # at least two outer tiles at run time
+
+    def order():
+        o = [p for p in pos if p != P]
+        rng.shuffle(o)
+        return o + [P]
+    o1 = order()
+    o2 = order() if rng.random() < 0.6 else list(o1)
+    s1, s2 = _lattice(rng, o1, bounds), _lattice(rng, o2, bounds)
+    for st, o in ((s1, o1), (s2, o2)):
+        # ties: a unit-bound stride placed after the anchor (in iteration order) takes the largest static step
+        anchor = o[-2] if len(o) >= 2 else None
+        if anchor is not None:
+            for p in pos:
+                if p != P and p > anchor and bounds[p[0]][p[1]] == 1 and rng.random() < 0.7:
+                    st[p] = st[anchor]
+    def lay(st, dynstep):
+        ts = [[(st[(d, k)], bounds[d][k]) for k in range(depths[d])] for d in range(rank)]
+        tw = [list(t) for t in ts]
+        ts[dd][0] = (None if dynstep else st[P], None)
+        return ts, tw
+    # a dynamic step needs a static stride to anchor the contiguity rule
+    def anchored(st):
+        # the code anchors dynamic steps at the FIRST stride (iteration order) with the largest static step;
+        # keep only layouts where that stride also has the largest bound among the tied ones (otherwise the
+        # real get_step_ops resolves `?` to an overlapping step: observed, see the final report)
+        others = [p for p in pos if p != P]
+        if not others:
+            return False
+        m = max(st[p] for p in others)
+        tied = [p for p in others if st[p] == m]
+        return bounds[tied[0][0]][tied[0][1]] == max(bounds[p[0]][p[1]] for p in tied)
+    a, at = lay(s1, anchored(s1) and rng.random() < 0.6)
+    b, bt = lay(s2, anchored(s2) and rng.random() < 0.6)
+    shape = [_prod(x for x in bs) for bs in bounds]
+    oa, ob = rng.choice([0, 0, 2]), rng.choice([0, 0, 5])
+    twin = {"shape": shape, "bits": bits, "src": ("tsl", at, oa), "dst": ("tsl", bt, ob), "mode": "dyn-tsl", "rshape": list(shape)}
+    case = dict(twin)
+    case["shape"] = [None if i == dd else x for i, x in enumerate(shape)]
+    case["src"], case["dst"] = ("tsl", a, oa), ("tsl", b, ob)
+    return case, twin
+
+
+def coq_rtmd(case, twin, side):
+    if case[side][0] != "strided":
+        return "None"
+    st, off = rt_descriptor(case, side, twin)
+    return f"(Some ({zlist(st)}, {zlit(off)}))"
 
 
 def is_tsl_static(ts):
@@ -472,13 +568,14 @@ def case_key(case):
 # ------------------------------------------------------------------------------------------
 def correspondence(ctx):
     rng = ctx.rng
-    n = ctx.n(400, 5000)
+    n = ctx.n(300, 5000)
     cases, metas = [], []
     dis = []
-    for c in CORPUS + [gen_case(rng) for _ in range(n)]:
+    pairs = [(c, c) for c in CORPUS + [gen_case(rng) for _ in range(n)]] + [gen_dyn_case(rng) for _ in range(n // 2)]
+    for c, tw in pairs:
         try:
             mod = run_pass(mlir_text(c))
-            code = read_code(mod, c)
+            code = read_code(mod, c, tw)
             lit = f"(Some {coq_code(code)})"
             nt = nontrivial_code(code)
         except ReadError as e:
@@ -487,16 +584,17 @@ def correspondence(ctx):
         except Exception as e:  # the pass raised: the model must say None
             lit, nt, code = "None", False, ("raise", repr(e)[:80])
         shape = coqlist(optz(x) for x in c["shape"])
-        cases.append(f"({shape}, {coq_mlayout(c['src'])}, {coq_mlayout(c['dst'])}, {zlit(c['bits'] // 8)}, "
-                     f"{zlist(c['rshape'])}, {lit})")
+        cases.append(f"({shape}, {coq_mlayout(c['src'])}, {coq_mlayout(c['dst'])}, {zlit(el_bytes(c))}, "
+                     f"{zlist(c['rshape'])}, {coq_rtmd(c, tw, 'src')}, {coq_rtmd(c, tw, 'dst')}, {boollit(case_static(c))}, {lit})")
         metas.append(c)
         ctx.count({"case": c, "code": str(code)[:300]}, nt, case_key(c), f"L1:{c['mode']}:{code[0]}")
-    test = ("fun c : list (option Z) * mlayout * mlayout * Z * list Z * option code => "
-            "match c with (sh, a, b, el, rs, r) => ocode_eqb (lower_memref sh a b el rs) r end")
+    test = ("fun c : list (option Z) * mlayout * mlayout * Z * list Z * rtmd * rtmd * bool * option code => "
+            "match c with (sh, a, b, el, rs, ma, mb, st, r) => ocode_eqb (lower_memref_dyn sh a b el rs ma mb) r && "
+            "(if st then ocode_eqb (lower_memref sh a b el rs) r else true) end")
     texts, spans = [], []
     SH = 250
     for i in range(0, len(cases), SH):
-        texts.append("From Snax Require Import Base.Prelude Model.Tsl Model.C05Copy.\n"
+        texts.append("From Snax Require Import Base.Prelude Model.Tsl Model.C05Copy Model.C05Dyn.\n"
                      f"Definition cases := {coqlist(cases[i:i + SH])}.\n"
                      f"Eval vm_compute in failing ({test}) cases.\n")
         spans.append(i)
@@ -614,7 +712,7 @@ def elem_addr(ts, off, idx):
 def check_case(case, static_case=None):
     """Property-level check on the implementation.  Returns a list of (what, detail)."""
     sc = static_case or case
-    el = case["bits"] // 8
+    el = el_bytes(case)
     rshape = case["rshape"]
     sts, soff = resolved_layout(case, "src", sc)
     dts, doff = resolved_layout(case, "dst", sc)
@@ -635,6 +733,8 @@ def check_case(case, static_case=None):
         memory.setdefault(a, ("D0", a))
     try:
         mod = run_pass(mlir_text(case))
+    except AssertionError:
+        return []          # loud refusal (assert in the pass): not a silent miscompilation
     except Exception as e:
         return [("pass-raised", {"error": repr(e)[:200]})]
     reads, writes = set(), set()
@@ -685,16 +785,17 @@ def classify(cases):
 
 def search(ctx, deep=False):
     rng = ctx.rng
-    n = ctx.n(300, 4000) * (3 if deep else 1)
+    n = ctx.n(200, 4000) * (3 if deep else 1)
     raw = []
-    for c in CORPUS + [gen_case(rng) for _ in range(n)]:
+    pairs = [(c, c) for c in CORPUS + [gen_case(rng) for _ in range(n)]] + [gen_dyn_case(rng) for _ in range(n // 2)]
+    for c, tw in pairs:
         try:
-            res = check_case(c)
+            res = check_case(c, tw)
         except Exception as e:  # harness problem on this case: report, never hide
             res = [("harness-crash", {"error": repr(e)[:300]})]
         ctx.count({"L2": c, "failures": len(res)}, _prod(c["rshape"]) > 1, "l2" + case_key(c), f"L2:{c['mode']}")
         for what, detail in res:
-            raw.append({"what": what, "case": c, "detail": detail, "mlir": mlir_text(c)})
+            raw.append({"what": what, "case": c, "twin": tw, "detail": detail, "mlir": mlir_text(c)})
     unsafe = classify([f["case"] for f in raw if case_static(f["case"])])
     k = 0
     for f in raw:
@@ -736,13 +837,14 @@ def replay(ctx, obj):
         print("no failing input recorded; broken obligations:", obj.get("no_longer_checks"))
         return 1
     c = _norm_case(f["case"])
+    tw = _norm_case(f["twin"]) if f.get("twin") else c
     print(mlir_text(c))
     try:
         mod = run_pass(mlir_text(c))
-        print("emitted:", read_code(mod, c))
+        print("emitted:", read_code(mod, c, tw))
     except Exception as e:
         print("pass/reader:", repr(e))
-    res = check_case(c)
+    res = check_case(c, tw)
     for r in res:
         print("FAIL", r)
     print("Safe_lccb:", 0 not in classify([c]) if case_static(c) else "n/a (dynamic)")
